@@ -48,6 +48,8 @@ structure Runner where
   pingOk : Bool := true      -- what llama.Ping currently answers (environment-controlled)
   pingBlock : Bool := false  -- Ping parks until the environment answers (`pingDone`)
   pingHeld : Bool := false   -- refMu held by needsReload across a parked Ping
+  pingOpen : Bool := false   -- the parked Ping does NOT keep refMu: the scheduler thread is descheduled right after
+                             -- needsReload returned (Ping is the last thing it evaluates), before useLoadedRunner
   refMuHeld : Bool := false  -- refMu held by the load goroutine across WaitUntilRunning
   loaderReq : ReqId := 0     -- the request whose load goroutine created this runner
   holders : List ReqId := [] -- ghost
@@ -214,6 +216,7 @@ inductive Act
   | timerCb (r : Rid)
   | unloadRun (r : Rid)                    -- a parked expireRunner call gets refMu
   | unloadBind (m : ModelId)               -- an expireRunner call gets loadedMu and looks its runner up
+  | setPingOpen (r : Rid)                  -- environment: the next health check parks with refMu released (see `pingOpen`)
 deriving Repr, DecidableEq
 
 def setRunner (s : State) (r : Rid) (x : Runner) : State := { s with runners := upd s.runners r x }
@@ -314,9 +317,11 @@ def step (v : Variant) (s : State) : Act → Option State
         | .delay => some { s1 with ppc := .idle, delayed := q :: s1.delayed }
     | _ => none
   | .setPing r ok =>
-    if r < s.nRunners then some (setRunner s r { s.runners r with pingOk := ok, pingBlock := false }) else none
+    if r < s.nRunners then some (setRunner s r { s.runners r with pingOk := ok, pingBlock := false, pingOpen := false }) else none
   | .setPingBlock r =>
-    if r < s.nRunners then some (setRunner s r { s.runners r with pingBlock := true }) else none
+    if r < s.nRunners then some (setRunner s r { s.runners r with pingBlock := true, pingOpen := false }) else none
+  | .setPingOpen r =>
+    if r < s.nRunners then some (setRunner s r { s.runners r with pingBlock := true, pingOpen := true }) else none
   | .pingDone r ok =>
     match s.ppc with
     | .pinging q r' =>
@@ -330,7 +335,7 @@ def step (v : Variant) (s : State) : Act → Option State
       let x := s.runners r
       if x.locked then none
       else if x.closed ∨ x.opts ≠ (s.reqs q).opts then some { s with ppc := .expire q r }   -- Ping not reached
-      else if x.pingBlock then some { setRunner s r { x with pingHeld := true } with ppc := .pinging q r }
+      else if x.pingBlock then some { setRunner s r { x with pingHeld := !x.pingOpen } with ppc := .pinging q r }
       else if ¬ x.pingOk then some { s with ppc := .expire q r }
       else some { s with ppc := .use q r }
     | _ => none
